@@ -6,7 +6,7 @@ import itertools
 
 import numpy as np
 
-from .. import ref
+from .. import core, ref
 from .. import lib as L
 
 ID = "C10"
@@ -82,6 +82,13 @@ def check_forms(ctx, rng, w, p, n, weights_list, cost_of, feasible_of, best, bad
         w["weights"] = [kind, list(args), kwargs]
         for form in ("qubo", "quso"):
             D = call("to_" + form, getattr(p, "to_" + form), *args, **kwargs)
+            if rng.random() < 0.2:
+                first = dict(D)
+                core.scribble(D)
+                D = call("to_" + form, getattr(p, "to_" + form), *args, **kwargs)
+                ctx.count("second-call-after-result-edited")
+                if dict(D) != first:
+                    bad("to_%s-second-call-differs" % form, "after the first result was edited, to_%s gives a different model" % form)
             labs = {x for k in D for x in k}
             if any((not isinstance(x, int)) or x < 0 or x >= n for x in labs):
                 bad("form-label-outside-range", "to_%s uses labels %r, num_binary_variables=%d" % (form, sorted(labs), n))
